@@ -51,4 +51,43 @@ Section Generic.
     - contradiction.
     - contradiction.
   Qed.
+
+  (* ---- geom/type_point.go:Envelope and geom/type_multi_point.go:Envelope (a range loop joining the members'
+     envelopes, empty points contributing the empty envelope), against Model/Envelope.v:point_env and
+     env_of (GMPoint ..) = fold_env point_env; for MultiPoints with ANY number of members *)
+  Lemma tie_join_loop : forall e o, geom_Envelope_ExpandToIncludeEnvelope eops (genv e) (genv o) = genv (join O e o).
+  Proof. intros [] []; reflexivity. Qed.
+
+  Definition gpoint (p : pointT F) : geom_Point F :=
+    match point_c p with
+    | None => Mk_geom_Point (Mk_geom_Coordinates zxy (o_zero O) (o_zero O) 0%Z) false
+    | Some v => Mk_geom_Point (Mk_geom_Coordinates (Mk_geom_XY (vx v) (vy v)) (vz v) (vm v) 0%Z) true
+    end.
+  Lemma tie_Point_Envelope : forall p, geom_Point_Envelope eops (gpoint p) = genv (point_env O p).
+  Proof.
+    intros p. unfold geom_Point_Envelope, geom_Point_XY, gpoint, point_env. destruct (point_c p) as [v|]; cbn.
+    - exact (tie_expand_xy None (vx v, vy v)).
+    - reflexivity.
+  Qed.
+
+  Lemma tie_MultiPoint_Envelope : forall ct ps z,
+    geom_MultiPoint_Envelope eops (Mk_geom_MultiPoint (map gpoint ps) z) = Known (genv (env_of O (GMPoint ct ps))).
+  Proof.
+    intros ct ps z. unfold geom_MultiPoint_Envelope. cbn [geom_MultiPoint_points env_of]. cbv zeta.
+    unfold fold_env.
+    range_rule
+      (fun (l : list (geom_Point F)) (env : geom_Envelope F) =>
+         exists e ps', l = map gpoint ps' /\ env = genv e /\ (fold_left (fun e a => join O e (point_env O a)) ps' e)
+                       = (fold_left (fun e a => join O e (point_env O a)) ps None))
+      (fun res : loop_res (geom_Envelope F) (geom_Envelope F) =>
+         match res with LDone env => env = genv (fold_left (fun e a => join O e (point_env O a)) ps None) | _ => False end).
+    - exists None, ps. repeat split; reflexivity.
+    - intros i x r env (e & ps' & Hl & He & Hf). destruct ps' as [|p ps'']; [discriminate|].
+      cbn [map] in Hl. injection Hl as -> ->. subst env. rewrite tie_Point_Envelope, tie_join_loop.
+      exists (join O e (point_env O p)), ps''. repeat split. exact Hf.
+    - intros env (e & ps' & Hl & He & Hf). destruct ps'; [|discriminate]. cbn in Hf. subst. reflexivity.
+    - subst s. reflexivity.
+    - contradiction.
+    - contradiction.
+  Qed.
 End Generic.
